@@ -989,6 +989,11 @@ def witness(failure, ctx):
     seqs = [()]
     for n in (1, 2, 3):
         seqs += list(itertools.product(kinds, repeat=n))
+    # bracket structure in depth: every sequence of length 4..6 over the structural kinds
+    core = ["Function", "FunctionEnd", "Label", "Return", "Nop"]
+    for n in (4, 5):
+        seqs += list(itertools.product(core + ["Variable", "TypeVoid"], repeat=n)) if n == 4 else list(itertools.product(core, repeat=n))
+    seqs += list(itertools.product(["Function", "FunctionEnd", "Label", "Return"], repeat=6))
     # plus longer well-formed shapes
     seqs += [("Function", "FunctionParameter", "Label", "Nop", "Line", "Return", "Label", "Variable", "Branch", "FunctionEnd"),
              ("TypeVoid", "Function", "Label", "Return", "FunctionEnd", "Function", "Label", "Kill", "FunctionEnd")]
@@ -1003,4 +1008,4 @@ def witness(failure, ctx):
         if not ok:
             return {"found": True, "exhaustive": False, "input": {"instructions": list(s), "words": " ".join(REPR[k] for k in s)},
                     "observed": o, "expected": exp, "how": "vreplay load-batch: real load_words vs C05 automaton, %d sequences" % len(seqs)}
-    return {"found": False, "exhaustive": False, "how": "%d instruction sequences (all of length <= 3 over %d representatives) agreed" % (len(seqs), len(kinds))}
+    return {"found": False, "exhaustive": False, "how": "%d instruction sequences (all of length <= 3 over %d representatives, all of length 4..6 over the structural kinds) agreed" % (len(seqs), len(kinds))}
